@@ -110,11 +110,17 @@ func initBig() {
 	intrinsics["(*math/big.Int).Div"] = func(in *Interp, fn *ssa.Function, a []Value) Value {
 		y := bigOf(a[2])
 		in.ctx.PanicIf(IntCmp("=", y, IntConst(big.NewInt(0))), "division by zero (big.Int)")
+		if x := bigOf(a[1]); x.IsConst() && y.IsConst() {
+			return setRecv(a, IntConst(new(big.Int).Div(x.Val, y.Val))) // Euclidean, as SMT-LIB div
+		}
 		return setRecv(a, mk("div", -1, bigOf(a[1]), y))
 	}
 	intrinsics["(*math/big.Int).Mod"] = func(in *Interp, fn *ssa.Function, a []Value) Value {
 		y := bigOf(a[2])
 		in.ctx.PanicIf(IntCmp("=", y, IntConst(big.NewInt(0))), "division by zero (big.Int)")
+		if x := bigOf(a[1]); x.IsConst() && y.IsConst() {
+			return setRecv(a, IntConst(new(big.Int).Mod(x.Val, y.Val)))
+		}
 		if y.IsConst() && !bigOf(a[1]).IsConst() {
 			// x mod 2^k for an x built from bit-vectors: stay in the bit-vector theory (Euclidean mod = low k bits)
 			if k := powerOfTwo(y.Val); k > 0 && k <= 256 {
